@@ -206,8 +206,8 @@ Inductive ooutcome :=
 | ODeadlock
 | OOutOfFuel.
 
-Fixpoint orun (k : ocfg) (fuel : nat) (sched : list nat) (s : ost) : ooutcome :=
-  if ofinal s then OTerminated (rev (o_arr s))
+Fixpoint orun (k : ocfg) (fuel : nat) (sched0 sched : list nat) (s : ost) : ooutcome :=
+  if ofinal s then OTerminated (lrev (o_arr s))
   else match fuel with
   | O => OOutOfFuel
   | S fuel' =>
@@ -216,9 +216,9 @@ Fixpoint orun (k : ocfg) (fuel : nat) (sched : list nat) (s : ost) : ooutcome :=
       match en with
       | [] => ODeadlock
       | l0 :: _ =>
-          let '(ch, sched') := match sched with [] => (O, []) | c :: r => (c, r) end in
-          match ostep k s (nth (ch mod length en) en l0) with
-          | Some s' => orun k fuel' sched' s'
+          let cs := next_choice sched0 sched in
+          match ostep k s (nth (fst cs mod length en) en l0) with
+          | Some s' => orun k fuel' sched0 (snd cs) s'
           | None => ODeadlock
           end
       end
@@ -231,7 +231,7 @@ Definition pmf_ord_run (caller_workers gworkers : nat) (hint : option nat) (call
   (len : nat) (sched : list nat) : ooutcome :=
   let k := mkOCfg gworkers (pmf_tasks caller_workers hint) caller_in_g in
   let s := oinit k (nseq 0 len) in
-  orun k (omeasure s) sched s.
+  orun k (omeasure s) sched sched s.
 
 (** the value computed from an arrival order *)
 Definition ord_value {R A} (f : N -> R) (fold : A -> R -> A) (init : A) (arrivals : list N) : A :=
